@@ -539,6 +539,7 @@ func (s *Server) Signers() ([]ssh.Signer, error) {
 		return nil, err
 	}
 	for _, signer := range uss {
+		signer = upstreamSigner{signer, &s.mu}
 		if !s.noUpstreamSSHCACert {
 			signers = append(signers, signer)
 			continue
